@@ -257,6 +257,24 @@ def rule_committed_source(ctx):
         ok = ok and len(loops) == 1 and unparse(loops[0].ast.iter) == asked.id
     ctx.ob(R, fi, fo, ok, "the partitions answered after the OffsetFetch are not exactly the ones asked about before it: a partition that started "
                           "waiting meanwhile would be told 'nothing committed'", text="answers-what-was-asked")
+    # every waiter is answered: a partition is listed as requesting exactly when it has waiters -- nothing else may exclude it,
+    # or the update task that awaits fetch_committed() hangs for ever (and with it the node it occupies)
+    frq = ctx.fn("aiokafka.consumer.subscription_state.Assignment.requesting_committed")
+    conds = [n.test for n in ast.walk(frq.node) if isinstance(n, ast.If)] + [i for n in ast.walk(frq.node) if isinstance(n, ast.comprehension) for i in n.ifs]
+    ctx.anchor(len(conds) >= 1, "filter of requesting_committed")
+    attrs = {x.attr for cnd in conds for x in ast.walk(cnd) if isinstance(x, ast.Attribute)}
+    calls_ = [x for cnd in conds for x in ast.walk(cnd) if isinstance(x, ast.Call)]
+    okf = attrs == {"_committed_futs"} and not calls_ and all(not isinstance(x, ast.UnaryOp) for cnd in conds for x in ast.walk(cnd))
+    ctx.ob(R, frq, frq.node, okf, f"requesting_committed() filters on {sorted(attrs)}: a partition with pending fetch_committed() waiters can be left out, "
+                                  "its waiters are never answered and the position update that awaits them never finishes", text="all-waiters-listed")
+    ffc = ctx.fn("aiokafka.consumer.subscription_state.TopicPartitionState.fetch_committed")
+    sfc = unparse(ffc.node)
+    ctx.ob(R, ffc, ffc.node, "self._committed_futs.append(" in sfc and "commit_refresh_needed.set()" in sfc, "fetch_committed does not register its future and wake the refresh task", text="waiter-registered")
+    fuc = ctx.fn("aiokafka.consumer.subscription_state.TopicPartitionState.update_committed")
+    cu = ctx.cfg(fuc)
+    srs = [n for n in cu.calls(attr="set_result")]
+    lp = [h for h in cu.nodes if h.kind == "loop" and isinstance(h.ast, ast.For) and unparse(h.ast.iter) == "self._committed_futs"]
+    ctx.ob(R, fuc, fuc.node, len(lp) == 1 and len(srs) == 1 and srs[0] in cu.loop_body(lp[0]), "update_committed does not resolve every registered waiter", text="all-waiters-resolved")
     uc = c.calls(attr="update_committed")
     it = [t for t in c.nodes if t.kind == "test" and isinstance(t.ast, ast.Compare) and isinstance(t.ast.ops[0], ast.In) and unparse(t.ast.comparators[0]) == "offsets"]
     ok = len(uc) == 2 and len(it) == 1
